@@ -198,6 +198,11 @@ def enumerate_cases(tier, scope):
                 yield {'shape': manual, 'instance': {'cls': 'C1', 'members': members}, 'loader': loader, 'load_with': load_with, 'ctx_extend': True}
                 yield {'shape': manual, 'instance': {'cls': 'C1', 'members': members}, 'loader': loader, 'load_with': load_with, 'redefine': True, 'strict': True}
     yield {'shape': shape, 'instance': {'cls': 'C2', 'members': {'m0': ['val', 1], 'm1': ['val', 2], 'm2': ['val', 3]}}, 'loader': 'default', 'load_with': 'none', 'tamper': 'pv.gen_classes:DoesNotExist'}
+    # a member that holds a bound method of another object of the same class, of a base class, of a sibling class
+    for cls, other in (('C2', 'C2'), ('C2', 'C0'), ('D', 'D'), ('D', 'C0'), ('C1', 'C1')):
+        for loader in ('default', 'persave'):
+            members = {m: ['val', 1] for m in sorted(declared(shape, cls))}
+            yield {'shape': shape, 'instance': {'cls': cls, 'members': members}, 'loader': loader, 'load_with': 'none', 'foreign_method': [sorted(members)[-1], other]}
     yield {'shape': shape, 'instance': {'cls': 'C2', 'members': {'m0': ['val', 1], 'm1': ['val', 2], 'm2': ['val', 3]}}, 'loader': 'default', 'load_with': 'none', 'tamper': 'no-colon-here'}
     yield {'shape': shape, 'instance': {'cls': 'C2', 'members': {'m0': ['val', 1], 'm1': ['val', 2], 'm2': ['val', 3]}}, 'loader': 'default', 'load_with': 'none', 'tamper': 'pv.broken_import:Thing'}
     yield {'shape': shape, 'instance': {'cls': 'C2', 'members': {'m0': ['val', 1], 'm1': ['val', 2], 'm2': ['val', 3]}}, 'loader': 'default', 'load_with': 'none', 'tamper': 'nomodule.xyz:Thing'}
@@ -436,6 +441,20 @@ def execute(case):
                 # a different loader (of a subclass) is installed globally: the one recorded at save must still win
                 loaders.set_object_loader(loaders_h.OtherLoader())
                 save_ctx = persistence.LoadSaveContext(loader=custom)
+            foreign = case.get('foreign_method')
+            if foreign:
+                # a declared member holds a bound method of ANOTHER object (same class or not): it cannot be saved by
+                # name - after loading it would be bound to the wrong object - so the save is refused
+                other = classes[foreign[1]]()
+                setattr(obj, foreign[0], getattr(other, 'meth_a'))
+                try:
+                    obj.save(save_ctx)
+                    v('foreign-method-saved', f'member {foreign[0]} holds a method bound to another {foreign[1]} object, yet save() succeeded')
+                except TypeError:
+                    pass
+                except BaseException as exc:  # noqa: BLE001
+                    v('foreign-method-error-type', f'{type(exc).__name__}: {exc}')
+                return {'violations': viol, 'nontrivial': True, 'classes': ['foreign-method'], 'history': {}}
             try:
                 state = obj.save(save_ctx)
             except BaseException as exc:  # noqa: BLE001
